@@ -27,11 +27,12 @@ const (
 	mTime           // header field: block time before the parent's
 	mTimeLater      // header field: later block time (still a valid block — another block)
 	mDifficulty     // header field: other difficulty (still a valid block under solo — another block)
+	mDupTail        // last transaction repeated, tx root AND state root those the body (duplicate executed) really gives
 	nMut
 )
 
 var mutName = []string{"reorder", "alter", "altersig", "resign", "duplicate", "blocksig", "drop", "add",
-	"txhash", "statehash", "height", "parent", "time", "timelater", "difficulty"}
+	"txhash", "statehash", "height", "parent", "time", "timelater", "difficulty", "duptail"}
 
 // mutate declares the mutant of kind k of block x (a new-header block with body txs on parent p).
 // sameHdr tells whether the mutant has x's hash.
@@ -97,6 +98,8 @@ func (b *builder) mutate(r *gen.Rand, k int, x int, tag *int) (wid int, sameHdr 
 			o.time = g.time + 7
 		}
 		return b.blk(g.parent, txs, o), false
+	case mDupTail:
+		return b.blk(g.parent, append(txs, txs[len(txs)-1]), base()), false
 	case mTimeLater:
 		o := base()
 		o.time = g.time + 5 + r.Intn(5)
@@ -129,7 +132,7 @@ func (b *builder) validBlk(parent, n int, tag *int, o bopt) int {
 }
 
 // scTip: mutants of a block extending the tip, then the genuine block, then a child.
-func scTip(r *gen.Rand, name string, kinds []int) Case {
+func scTip(r *gen.Rand, name string, kinds []int, mode int, restart bool) Case {
 	b := newCase(name, r.Bool(), 600, 200)
 	tag := 1
 	ws := b.trunk(r, 0, 1+r.Intn(3), &tag)
@@ -138,6 +141,7 @@ func scTip(r *gen.Rand, name string, kinds []int) Case {
 	y := b.validBlk(x, 1, &tag, opt())
 	for _, k := range kinds {
 		m, _ := b.mutate(r, k, x, &tag)
+		b.poolFor(r.Bool, mode, m, nil)
 		b.deliver(m, src(r, true), bc(r))
 		if r.Chance(1, 3) {
 			b.deliver(m, src(r, true), bc(r)) // the same mutant again
@@ -145,6 +149,11 @@ func scTip(r *gen.Rand, name string, kinds []int) Case {
 		if r.Chance(1, 2) {
 			b.op("stored %d", x)
 		}
+	}
+	if restart {
+		b.op("restart") // index, error log, orphan pool and mempool start afresh; the store keeps the bodies
+	} else {
+		b.poolFor(r.Bool, mode, x, nil)
 	}
 	b.deliver(x, src(r, true), bc(r))
 	b.op("chain")
@@ -155,7 +164,7 @@ func scTip(r *gen.Rand, name string, kinds []int) Case {
 }
 
 // scOrphan: the mutant (and later the genuine block) arrive before the parent.
-func scOrphan(r *gen.Rand, name string, k int) Case {
+func scOrphan(r *gen.Rand, name string, k int, mode int) Case {
 	b := newCase(name, r.Bool(), 600, 200)
 	tag := 1
 	ws := b.trunk(r, 0, 1+r.Intn(2), &tag)
@@ -166,6 +175,8 @@ func scOrphan(r *gen.Rand, name string, k int) Case {
 	if r.Chance(1, 4) {
 		first, second = x, m
 	}
+	b.poolFor(r.Bool, mode, m, nil)
+	b.poolFor(r.Bool, mode, x, nil)
 	b.deliver(first, src(r, true), bc(r))
 	b.op("isorphan %d", x)
 	b.deliver(second, src(r, true), bc(r))
@@ -180,7 +191,7 @@ func scOrphan(r *gen.Rand, name string, k int) Case {
 
 // scSide: the block sits on a side branch when the mutant arrives (it is pre-stored, not
 // executed); later the branch becomes the heavier one.
-func scSide(r *gen.Rand, name string, k int, download bool) Case {
+func scSide(r *gen.Rand, name string, k int, download bool, mode int) Case {
 	b := newCase(name, r.Bool(), 600, 200)
 	tag := 1
 	ws := b.trunk(r, 0, margin-1+r.Intn(3), &tag)
@@ -203,6 +214,8 @@ func scSide(r *gen.Rand, name string, k int, download bool) Case {
 	if download {
 		s = "d"
 	}
+	b.poolFor(r.Bool, mode, mut, nil)
+	b.poolFor(r.Bool, mode, x, nil)
 	b.deliver(mut, s, bc(r))
 	b.op("stored %d", x)
 	b.deliver(x, "p", bc(r))
@@ -224,7 +237,7 @@ func scSide(r *gen.Rand, name string, k int, download bool) Case {
 
 // scLastInvalid: a heavier side branch whose LAST block is invalid (S-C27c): the reorganisation
 // detaches the main branch, attaches the valid part of the side branch and stops.
-func scLastInvalid(r *gen.Rand, name string, k int) Case {
+func scLastInvalid(r *gen.Rand, name string, k int, mode int) Case {
 	b := newCase(name, r.Bool(), 600, 200)
 	tag := 1
 	ws := b.trunk(r, 0, margin-1+r.Intn(3), &tag)
@@ -248,6 +261,7 @@ func scLastInvalid(r *gen.Rand, name string, k int) Case {
 	b.deliver(s1, "p", bc(r))
 	b.deliver(s2, "p", bc(r))
 	b.op("chain")
+	b.poolFor(r.Bool, mode, mut, nil)
 	b.deliver(mut, "p", bc(r))
 	b.op("chain")
 	if r.Bool() {
@@ -298,46 +312,57 @@ var sameHdrKinds = []int{mReorder, mAlter, mAlterSig, mResign, mDuplicate, mBloc
 func GenC27(seed uint64) []Case {
 	r := gen.New(seed*0x9e37 + 27)
 	var cs []Case
-	// every mutation kind once as a tip extension, once through the orphan pool
+	modeName := []string{"", "-somepooled", "-allpooled"}
+	// every mutation kind as a tip extension with none / ALL of the block's transactions in the
+	// receiving node's mempool (and with some of them, for the kinds that touch the body)
 	for k := 0; k < nMut; k++ {
-		cs = append(cs, scTip(r, "tip-"+mutName[k], []int{k}))
+		for _, mode := range []int{poolNone, poolAll, poolSome} {
+			if mode == poolSome && !(k <= mAdd || k == mDupTail) {
+				continue
+			}
+			cs = append(cs, scTip(r, "tip-"+mutName[k]+modeName[mode], []int{k}, mode, false))
+		}
+	}
+	// the genuine block after a restart of the poisoned node
+	for _, k := range []int{mReorder, mAlterSig, mBlockSig, mDupTail} {
+		cs = append(cs, scTip(r, "tip-restart-"+mutName[k], []int{k}, poolNone, true))
 	}
 	for k := 0; k < nMut; k++ {
 		if k == mParent || k == mHeight {
 			continue
 		}
-		cs = append(cs, scOrphan(r, "orphan-"+mutName[k], k))
+		cs = append(cs, scOrphan(r, "orphan-"+mutName[k]+modeName[(k+1)%3], k, (k+1)%3))
 	}
 	// same-header mutants on a side branch (peer and download), invalid last block of a heavier branch
-	for _, k := range sameHdrKinds {
-		cs = append(cs, scSide(r, "side-"+mutName[k], k, false))
+	for i, k := range sameHdrKinds {
+		cs = append(cs, scSide(r, "side-"+mutName[k]+modeName[(i+2)%3], k, false, (i+2)%3))
 	}
 	for i := 0; i < gen.Scale(2, 40); i++ {
-		cs = append(cs, scSide(r, fmt.Sprintf("side-dl%d", i), sameHdrKinds[r.Intn(len(sameHdrKinds))], true))
+		cs = append(cs, scSide(r, fmt.Sprintf("side-dl%d", i), sameHdrKinds[r.Intn(len(sameHdrKinds))], true, r.Intn(3)))
 	}
 	for _, k := range []int{mReorder, mAlterSig, mBlockSig} {
 		cs = append(cs, scDownloadStale(r, "dlstale-"+mutName[k], k))
 	}
-	for _, k := range []int{mStateHash, mTxHash, mReorder, mAlterSig, mDrop, mTime} {
-		cs = append(cs, scLastInvalid(r, "lastinvalid-"+mutName[k], k))
+	for i, k := range []int{mStateHash, mTxHash, mReorder, mAlterSig, mDrop, mTime, mDupTail, mDuplicate} {
+		cs = append(cs, scLastInvalid(r, "lastinvalid-"+mutName[k]+modeName[i%3], k, i%3))
 	}
 	// several mutants in a row
 	for i := 0; i < gen.Scale(6, 320); i++ {
 		n := 2 + r.Intn(3)
 		ks := r.Perm(nMut)[:n] // distinct kinds: two mutants of one kind could be the same block
-		cs = append(cs, scTip(r, fmt.Sprintf("tipmix%d", i), ks))
+		cs = append(cs, scTip(r, fmt.Sprintf("tipmix%d", i), ks, r.Intn(3), r.Chance(1, 6)))
 	}
 	for i := 0; i < gen.Scale(0, 200); i++ {
 		k := r.Intn(nMut)
 		switch r.Intn(3) {
 		case 0:
 			if k != mParent && k != mHeight {
-				cs = append(cs, scOrphan(r, fmt.Sprintf("orphanx%d", i), k))
+				cs = append(cs, scOrphan(r, fmt.Sprintf("orphanx%d", i), k, r.Intn(3)))
 			}
 		case 1:
-			cs = append(cs, scSide(r, fmt.Sprintf("sidex%d", i), sameHdrKinds[r.Intn(len(sameHdrKinds))], r.Chance(1, 3)))
+			cs = append(cs, scSide(r, fmt.Sprintf("sidex%d", i), sameHdrKinds[r.Intn(len(sameHdrKinds))], r.Chance(1, 3), r.Intn(3)))
 		default:
-			cs = append(cs, scLastInvalid(r, fmt.Sprintf("lastx%d", i), k))
+			cs = append(cs, scLastInvalid(r, fmt.Sprintf("lastx%d", i), k, r.Intn(3)))
 		}
 	}
 	return cs
